@@ -127,7 +127,7 @@ def payload_spec(p):
         return ('{ let start = 20 + ip4_options_length(s); let end = if start + ip4_payload_length(s) < s.len() { start + ip4_payload_length(s) } else { s.len() as int };\n'
                 '          if s.len() <= start { Seq::<u8>::empty() } else { s.subrange(start, end) } }')
     if pl == 'ipv6':
-        return ('{ let end = if 40 + be16(s, 4) < s.len() { 40 + be16(s, 4) as int } else { s.len() as int };\n'
+        return ('{ let end = if 40 + ip6_payload_length(s) < s.len() { 40 + ip6_payload_length(s) as int } else { s.len() as int };\n'
                 '          if s.len() <= 40 { Seq::<u8>::empty() } else { s.subrange(40, end) } }')
     if pl == 'tcp':
         return ('{ let start = 20 + tcp_options_length(s);\n'
@@ -139,14 +139,15 @@ def set_payload_req_ens(p):
     if sp is None: return None
     if sp.startswith('at:'):
         n = int(sp[3:])
-        return ('%d + vals@.len() <= old(self)@.len()' % n, 'set_bytes(old(self)@, %d, vals@)' % n)
+        SPEC_LINES.append('pub open spec fn %s_set_payload(s: Seq<u8>, v: Seq<u8>) -> Seq<u8> { set_bytes(s, %d, v) }' % (p['prefix'], n))
+        return ('%d + vals@.len() <= old(self)@.len()' % n, '%s_set_payload(old(self)@, vals@)' % p['prefix'])
     if sp == 'ipv4':
         return ('vals@.len() <= ip4_payload_length(old(self)@) && 20 + ip4_options_length(old(self)@) + vals@.len() <= old(self)@.len()',
-                'set_bytes(old(self)@, 20 + ip4_options_length(old(self)@), vals@)')
+                'ip4_set_payload(old(self)@, vals@)')
     if sp == 'ipv6':
-        return ('vals@.len() <= be16(old(self)@, 4) && 40 + vals@.len() <= old(self)@.len()', 'set_bytes(old(self)@, 40, vals@)')
+        return ('vals@.len() <= ip6_payload_length(old(self)@) && 40 + vals@.len() <= old(self)@.len()', 'ip6_set_payload(old(self)@, vals@)')
     if sp == 'tcp':
-        return ('20 + tcp_options_length(old(self)@) + vals@.len() <= old(self)@.len()', 'set_bytes(old(self)@, 20 + tcp_options_length(old(self)@), vals@)')
+        return ('20 + tcp_options_length(old(self)@) + vals@.len() <= old(self)@.len()', 'tcp_set_payload(old(self)@, vals@)')
     raise ValueError(sp)
 
 def gen_newtype(name, ity, constmod, consts):
@@ -169,15 +170,136 @@ def gen_newtype(name, ity, constmod, consts):
     return o
 
 SPEC_LINES = []
+LEMMA_LINES = []
+LEMMA_NAMES = []
+OPAQUE = {'tcp', 'ip4', 'ip6'}
+
+def spec_arg_ty(kind):
+    """type of the value parameter of the named setter spec"""
+    k = kind[0]
+    if k == 'nt8': return 'u8'
+    if k == 'nt16': return 'u16'
+    return ty_of(kind)
+
+def setter_val(kind, v):
+    return v + '.0' if kind[0] in ('nt8', 'nt16') else v
+
+def spec_set_raw(kind, s, v):
+    """byte-level definition of the setter on the raw value"""
+    k = kind[0]
+    if k in ('u8', 'nt8'): return 'set8(%s, %d, %s)' % (s, kind[1], v)
+    if k in ('u16', 'nt16'): return 'set16(%s, %d, %s)' % (s, kind[1], v)
+    if k == 'u32': return 'set32(%s, %d, %s)' % (s, kind[1], v)
+    return spec_set(kind, s, v)
+
+def get_norm(kind, v):
+    """value read back after set(v), and the side condition under which it equals v"""
+    k = kind[0]
+    if k == 'bits8':
+        return ('%s <= %d' % (v, kind[2] >> kind[3]), v)
+    if k == 'tcpflags':
+        return ('%s < 512' % v, v)
+    return (None, v)
+
+def field_bytes(kind):
+    k = kind[0]
+    if k in ('u8', 'nt8', 'bits8'): return (kind[1], kind[1] + 1)
+    if k in ('u16', 'nt16'): return (kind[1], kind[1] + 2)
+    if k == 'u32': return (kind[1], kind[1] + 4)
+    if k == 'mac': return (kind[1], kind[1] + 6)
+    if k == 'ip4': return (kind[1], kind[1] + 4)
+    if k == 'ip6': return (kind[1], kind[1] + 16)
+    if k == 'tcpflags': return (12, 14)
+    raise ValueError(k)
+
+PAYLOAD_BOUND_FIELDS = {'ip4': {'header_length', 'total_length'}, 'ip6': {'payload_length'}, 'tcp': {'data_offset'}}
+
+def gen_lemmas(p):
+    name, pre, mn = p['name'], p['prefix'], p['min']
+    opq = pre in OPAQUE
+    L = LEMMA_LINES
+    getters = ['%s_%s' % (pre, f) for f, _ in p['fields']]
+    has_payload = payload_spec(p) is not None
+    def reveals(extra=()):
+        if not opq: return []
+        r = ['        reveal(%s);' % g for g in getters] + ['        reveal(%s);' % e for e in extra]
+        if has_payload: r.append('        reveal(%s_payload);' % pre)
+        return r
+    for fname, kind in p['fields']:
+        setter = '%s_set_%s' % (pre, fname)
+        vt = spec_arg_ty(kind)
+        lname = 'lemma_%s' % setter
+        LEMMA_NAMES.append(lname)
+        cond, back = get_norm(kind, 'v')
+        L.append('/*PROVED_IN:u_pnet*/ pub broadcast proof fn %s(s: Seq<u8>, v: %s)' % (lname, vt))
+        L.append('    requires s.len() >= %d' % mn)
+        L.append('    ensures')
+        L.append('        (#[trigger] %s(s, v)).len() == s.len(),' % setter)
+        if cond:
+            L.append('        %s ==> %s_%s(%s(s, v)) == %s,' % (cond, pre, fname, setter, back))
+        else:
+            L.append('        %s_%s(%s(s, v)) == %s,' % (pre, fname, setter, back))
+        for g, gk in p['fields']:
+            if g != fname:
+                L.append('        %s_%s(%s(s, v)) == %s_%s(s),' % (pre, g, setter, pre, g))
+        L.append('        %s(s, v).subrange(%d, s.len() as int) == s.subrange(%d, s.len() as int),' % (setter, mn, mn))
+        if has_payload and fname not in PAYLOAD_BOUND_FIELDS.get(pre, set()):
+            L.append('        %s_payload(%s(s, v)) == %s_payload(s),' % (pre, setter, pre))
+        if fname == 'checksum':
+            L.append('        zero16(%s(s, v), %d) == zero16(s, %d),' % (setter, kind[1], kind[1]))
+        L.append('{')
+        L += reveals([setter])
+        L.append('        let t = %s(s, v);' % setter)
+        # bit-level facts for the bytes this setter rewrites partially
+        if kind[0] == 'bits8':
+            o, m_, sh = kind[1], kind[2], kind[3]
+            L.append('        let b = s[%d]; let nb = t[%d];' % (o, o))
+            L.append('        assert(nb == (b & %d) | ((v << %d) & %d));' % (0xff & ~m_, sh, m_))
+            rd = (lambda e, mk, shf: '((%s) & %d) >> %d' % (e, mk, shf) if shf else '((%s) & %d)' % (e, mk))
+            L.append('        assert(v <= %d ==> %s == v) by(bit_vector);' % (m_ >> sh, rd('(b & %d) | ((v << %d) & %d)' % (0xff & ~m_, sh, m_), m_, sh)))
+            for g, gk in p['fields']:
+                if g != fname and gk[0] == 'bits8' and gk[1] == o:
+                    L.append('        assert(%s == %s) by(bit_vector);' % (rd('(b & %d) | ((v << %d) & %d)' % (0xff & ~m_, sh, m_), gk[2], gk[3]), rd('b', gk[2], gk[3])))
+                if g != fname and gk[0] == 'tcpflags' and o == 12:
+                    L.append('        assert((((b & %d) | ((v << %d) & %d)) & 1) == (b & 1)) by(bit_vector);' % (0xff & ~m_, sh, m_))
+        if kind[0] == 'tcpflags':
+            L.append('        let b = s[12]; let nb = t[12];')
+            L.append('        assert(nb == (b & 0xfe) | (((v & 0x100) >> 8) as u8));')
+            L.append('        assert(v < 512 ==> (((b & 0xfe) | (((v & 0x100) >> 8) as u8)) & 1) as u16 * 256 + ((v & 0xff) as u8) as u16 == v) by(bit_vector);')
+            L.append('        assert((((b & 0xfe) | (((v & 0x100) >> 8) as u8)) & 0xf0) >> 4 == (b & 0xf0) >> 4) by(bit_vector);')
+        if kind[0] == 'u32':
+            L.append('        lemma_be32_set32(s, %d, v);' % kind[1])
+        if kind[0] in ('u16', 'nt16'):
+            L.append('        lemma_be16_set16(s, %d, v);' % kind[1])
+        lo, hi = field_bytes(kind)
+        for g, gk in p['fields']:
+            if g != fname and gk[0] in ('ip4', 'ip6', 'mac'):
+                glo, ghi = field_bytes(gk)
+                if gk[0] != 'mac':
+                    L.append('        assert(t.subrange(%d, %d) =~= s.subrange(%d, %d));' % (glo, ghi, glo, ghi))
+        if kind[0] == 'ip4':
+            L.append('        assert(t.subrange(%d, %d) =~= ip4_octets(v));' % (lo, hi))
+        if kind[0] == 'ip6':
+            L.append('        assert(t.subrange(%d, %d) =~= ip6_octets(v));' % (lo, hi))
+        L.append('        assert(t.subrange(%d, s.len() as int) =~= s.subrange(%d, s.len() as int));' % (mn, mn))
+        if has_payload and fname not in PAYLOAD_BOUND_FIELDS.get(pre, set()) and pre in ('ip4', 'ip6', 'tcp'):
+            L.append('        lemma_%s_payload_frame(s, t);' % pre)
+        if fname == 'checksum':
+            L.append('        assert(zero16(t, %d) =~= zero16(s, %d));' % (kind[1], kind[1]))
+        L.append('}')
+
 def gen_packet(p):
     o = []
     name, pre, mn = p['name'], p['prefix'], p['min']
+    opq = '#[verifier::opaque] ' if pre in OPAQUE else ''
     # spec functions
     for fname, kind in p['fields']:
-        SPEC_LINES.append('pub open spec fn %s_%s(s: Seq<u8>) -> %s { %s }' % (pre, fname, spec_ret_ty(kind), spec_get(kind)))
+        SPEC_LINES.append('%spub open spec fn %s_%s(s: Seq<u8>) -> %s { %s }' % (opq, pre, fname, spec_ret_ty(kind), spec_get(kind)))
+        SPEC_LINES.append('%spub open spec fn %s_set_%s(s: Seq<u8>, v: %s) -> Seq<u8> { %s }' % (opq, pre, fname, spec_arg_ty(kind), spec_set_raw(kind, 's', 'v')))
     ps = payload_spec(p)
     if ps:
-        SPEC_LINES.append('pub open spec fn %s_payload(s: Seq<u8>) -> Seq<u8> { %s }' % (pre, ps))
+        SPEC_LINES.append('%spub open spec fn %s_payload(s: Seq<u8>) -> Seq<u8> { %s }' % (opq, pre, ps))
+    gen_lemmas(p)
     for mut in (False, True):
         T = ('Mutable' if mut else '') + name + 'Packet'
         o.append('pub struct %s<\'p> { pub bytes: Vec<u8>, pub _p: core::marker::PhantomData<&\'p ()> }' % T)
@@ -207,13 +329,183 @@ def gen_packet(p):
             for fname, kind in p['fields']:
                 ty = ty_of(kind)
                 o.append('    #[verifier::external_body] pub fn set_%s(&mut self, val: %s) requires old(self).wf()' % (fname, ty))
-                o.append('        ensures final(self)@ == %s, final(self).wf() { unimplemented!() }' % spec_set(kind, 'old(self)@', 'val'))
+                o.append('        ensures final(self)@ == %s_set_%s(old(self)@, %s), final(self).wf() { unimplemented!() }' % (pre, fname, setter_val(kind, 'val')))
             sp = set_payload_req_ens(p)
             if sp:
                 o.append('    #[verifier::external_body] pub fn set_payload(&mut self, vals: &[u8]) requires old(self).wf(), %s' % sp[0])
                 o.append('        ensures final(self)@ == %s, final(self).wf() { unimplemented!() }' % sp[1])
         o.append('}')
     return o
+
+SPEC_EXTRA = r'''
+pub open spec fn ip4_set_payload(s: Seq<u8>, v: Seq<u8>) -> Seq<u8> { set_bytes(s, 20 + ip4_options_length(s), v) }
+pub open spec fn ip6_set_payload(s: Seq<u8>, v: Seq<u8>) -> Seq<u8> { set_bytes(s, 40, v) }
+pub open spec fn tcp_set_payload(s: Seq<u8>, v: Seq<u8>) -> Seq<u8> { set_bytes(s, 20 + tcp_options_length(s), v) }
+/// IPv4 fragment offset (13 bits) -- spec only, pnet setter not used by masscanned
+pub open spec fn ip4_fragment_offset(s: Seq<u8>) -> int { (s[6] & 0x1f) as int * 256 + s[7] as int }
+pub open spec fn zero_header(s: Seq<u8>, n: int) -> bool { s.len() >= n && forall|i: int| 0 <= i < n ==> s[i] == 0 }
+'''
+
+LEMMA_EXTRA = r'''
+pub proof fn lemma_ip4_payload_frame(s: Seq<u8>, t: Seq<u8>)
+    requires s.len() >= 20, t.len() == s.len(), ip4_header_length(t) == ip4_header_length(s), ip4_total_length(t) == ip4_total_length(s),
+             t.subrange(20, s.len() as int) == s.subrange(20, s.len() as int)
+    ensures ip4_payload(t) == ip4_payload(s)
+{
+    reveal(ip4_payload);
+    let start = 20 + ip4_options_length(s);
+    let end = if start + ip4_payload_length(s) < s.len() { start + ip4_payload_length(s) } else { s.len() as int };
+    if s.len() > start {
+        assert(start >= 20 && start <= end <= s.len());
+        assert forall|i: int| 0 <= i < end - start implies t.subrange(start, end)[i] == s.subrange(start, end)[i] by {
+            let a = t.subrange(20, s.len() as int); let b = s.subrange(20, s.len() as int);
+            assert(a == b);
+            assert(a[start + i - 20] == t[start + i]);
+            assert(b[start + i - 20] == s[start + i]);
+        }
+        assert(t.subrange(start, end) =~= s.subrange(start, end));
+    }
+}
+pub proof fn lemma_ip6_payload_frame(s: Seq<u8>, t: Seq<u8>)
+    requires s.len() >= 40, t.len() == s.len(), ip6_payload_length(t) == ip6_payload_length(s),
+             t.subrange(40, s.len() as int) == s.subrange(40, s.len() as int)
+    ensures ip6_payload(t) == ip6_payload(s)
+{
+    reveal(ip6_payload);
+    let end = if 40 + ip6_payload_length(s) < s.len() { 40 + ip6_payload_length(s) as int } else { s.len() as int };
+    if s.len() > 40 {
+        assert forall|i: int| 0 <= i < end - 40 implies t.subrange(40, end)[i] == s.subrange(40, end)[i] by {
+            assert(t.subrange(40, s.len() as int)[i] == s.subrange(40, s.len() as int)[i]);
+        }
+        assert(t.subrange(40, end) =~= s.subrange(40, end));
+    }
+}
+pub proof fn lemma_tcp_payload_frame(s: Seq<u8>, t: Seq<u8>)
+    requires s.len() >= 20, t.len() == s.len(), tcp_data_offset(t) == tcp_data_offset(s),
+             t.subrange(20, s.len() as int) == s.subrange(20, s.len() as int)
+    ensures tcp_payload(t) == tcp_payload(s)
+{
+    reveal(tcp_payload);
+    let start = 20 + tcp_options_length(s);
+    if s.len() > start {
+        assert(start >= 20);
+        assert forall|i: int| 0 <= i < s.len() - start implies t.subrange(start, s.len() as int)[i] == s.subrange(start, s.len() as int)[i] by {
+            let a = t.subrange(20, s.len() as int); let b = s.subrange(20, s.len() as int);
+            assert(a == b);
+            assert(a[start + i - 20] == t[start + i]);
+            assert(b[start + i - 20] == s[start + i]);
+        }
+        assert(t.subrange(start, s.len() as int) =~= s.subrange(start, s.len() as int));
+    }
+}
+/*PROVED_IN:u_pnet*/ pub broadcast proof fn lemma_ip4_set_payload(s: Seq<u8>, v: Seq<u8>)
+    requires s.len() == 20 + v.len(), ip4_header_length(s) == 5, ip4_total_length(s) as int == s.len()
+    ensures (#[trigger] ip4_set_payload(s, v)).len() == s.len(),
+        ip4_set_payload(s, v).subrange(0, 20) == s.subrange(0, 20),
+        ip4_set_payload(s, v) == s.subrange(0, 20) + v,
+        ip4_payload(ip4_set_payload(s, v)) == v,
+        IP4_FIELDS_PRESERVED
+{
+    IP4_REVEALS
+    let t = ip4_set_payload(s, v);
+    assert(t.subrange(0, 20) =~= s.subrange(0, 20));
+    assert(t =~= s.subrange(0, 20) + v);
+    assert(t.subrange(12, 16) =~= s.subrange(12, 16));
+    assert(t.subrange(16, 20) =~= s.subrange(16, 20));
+    assert(t.subrange(20, t.len() as int) =~= v);
+}
+/*PROVED_IN:u_pnet*/ pub broadcast proof fn lemma_ip6_set_payload(s: Seq<u8>, v: Seq<u8>)
+    requires s.len() == 40 + v.len(), ip6_payload_length(s) as int == v.len()
+    ensures (#[trigger] ip6_set_payload(s, v)).len() == s.len(),
+        ip6_set_payload(s, v).subrange(0, 40) == s.subrange(0, 40),
+        ip6_set_payload(s, v) == s.subrange(0, 40) + v,
+        ip6_payload(ip6_set_payload(s, v)) == v,
+        IP6_FIELDS_PRESERVED
+{
+    IP6_REVEALS
+    let t = ip6_set_payload(s, v);
+    assert(t.subrange(0, 40) =~= s.subrange(0, 40));
+    assert(t =~= s.subrange(0, 40) + v);
+    assert(t.subrange(8, 24) =~= s.subrange(8, 24));
+    assert(t.subrange(24, 40) =~= s.subrange(24, 40));
+    assert(t.subrange(40, t.len() as int) =~= v);
+}
+/*PROVED_IN:u_pnet*/ pub broadcast proof fn lemma_eth_set_payload(s: Seq<u8>, v: Seq<u8>)
+    requires s.len() == 14 + v.len()
+    ensures (#[trigger] eth_set_payload(s, v)).len() == s.len(),
+        eth_set_payload(s, v) == s.subrange(0, 14) + v,
+        eth_payload(eth_set_payload(s, v)) == v,
+        eth_destination(eth_set_payload(s, v)) == eth_destination(s),
+        eth_source(eth_set_payload(s, v)) == eth_source(s),
+        eth_ethertype(eth_set_payload(s, v)) == eth_ethertype(s),
+{
+    let t = eth_set_payload(s, v);
+    assert(t =~= s.subrange(0, 14) + v);
+    assert(t.subrange(14, t.len() as int) =~= v);
+}
+/// payload of a TCP segment without options is everything after the 20-byte header
+/*PROVED_IN:u_pnet*/ pub broadcast proof fn lemma_tcp_payload_simple(s: Seq<u8>)
+    requires s.len() >= 20, tcp_data_offset(s) <= 5
+    ensures #[trigger] tcp_payload(s) == s.subrange(20, s.len() as int)
+{
+    reveal(tcp_payload);
+    assert(s.subrange(20, s.len() as int) =~= tcp_payload(s));
+}
+/*PROVED_IN:u_pnet*/ pub broadcast proof fn lemma_tcp_payload_len(s: Seq<u8>)
+    requires s.len() >= 20
+    ensures (#[trigger] tcp_payload(s)).len() <= s.len() - 20
+{ reveal(tcp_payload); }
+/*PROVED_IN:u_pnet*/ pub broadcast proof fn lemma_ip4_payload_len(s: Seq<u8>)
+    requires s.len() >= 20
+    ensures (#[trigger] ip4_payload(s)).len() <= s.len() - 20
+{ reveal(ip4_payload); }
+/*PROVED_IN:u_pnet*/ pub broadcast proof fn lemma_ip6_payload_len(s: Seq<u8>)
+    requires s.len() >= 40
+    ensures (#[trigger] ip6_payload(s)).len() <= s.len() - 40
+{ reveal(ip6_payload); }
+/// header fields of an all-zero header
+pub proof fn lemma_tcp_zero_header(s: Seq<u8>)
+    requires zero_header(s, 20)
+    ensures tcp_data_offset(s) == 0, tcp_flags(s) == 0, tcp_source(s) == 0, tcp_destination(s) == 0, tcp_sequence(s) == 0,
+            tcp_acknowledgement(s) == 0, tcp_window(s) == 0, tcp_checksum(s) == 0, tcp_urgent_ptr(s) == 0
+{
+    TCP_REVEALS
+    assert((0u8 & 0xf0) >> 4 == 0) by(bit_vector);
+    assert((0u8 & 1) == 0) by(bit_vector);
+}
+pub proof fn lemma_ip4_zero_header(s: Seq<u8>)
+    requires zero_header(s, 20)
+    ensures ip4_version(s) == 0, ip4_header_length(s) == 0, ip4_dscp(s) == 0, ip4_ecn(s) == 0, ip4_total_length(s) == 0,
+            ip4_identification(s) == 0, ip4_flags(s) == 0, ip4_ttl(s) == 0, ip4_next_level_protocol(s) == 0, ip4_checksum(s) == 0,
+            ip4_fragment_offset(s) == 0
+{
+    IP4_REVEALS
+    assert((0u8 & 0xf0) >> 4 == 0 && (0u8 & 0x0f) == 0 && (0u8 & 0xfc) >> 2 == 0 && (0u8 & 0x03) == 0 && (0u8 & 0xe0) >> 5 == 0 && (0u8 & 0x1f) == 0) by(bit_vector);
+}
+pub proof fn lemma_ip6_zero_header(s: Seq<u8>)
+    requires zero_header(s, 40)
+    ensures ip6_version(s) == 0, ip6_payload_length(s) == 0, ip6_next_header(s) == 0, ip6_hop_limit(s) == 0
+{
+    IP6_REVEALS
+    assert((0u8 & 0xf0) >> 4 == 0) by(bit_vector);
+}
+/// the IPv4 fragment offset is untouched by every setter masscanned uses except set_flags, which keeps the low 5 bits
+pub proof fn lemma_ip4_frag_after_flags(s: Seq<u8>, v: u8)
+    requires s.len() >= 20
+    ensures ip4_fragment_offset(ip4_set_flags(s, v)) == ip4_fragment_offset(s)
+{
+    reveal(ip4_set_flags);
+    let b = s[6];
+    assert((((b & 31) | ((v << 5) & 224)) & 0x1f) == (b & 0x1f)) by(bit_vector);
+}
+/// writing back the value a 16-bit field already holds changes nothing (UDP length after the checksum, ipv4.rs)
+pub proof fn lemma_udp_set_length_same(s: Seq<u8>)
+    requires s.len() >= 8
+    ensures udp_set_length(s, udp_length(s)) == s
+{
+    assert(udp_set_length(s, udp_length(s)) =~= s);
+}
+'''
 
 HAND_WRITTEN = {
 'util': r'''
@@ -336,18 +628,50 @@ def main():
     A('pub mod pspec {')
     A('    use vstd::prelude::*; use crate::shim::*; use crate::pnet::util::*;')
     for l in SPEC_LINES: A('    ' + l)
+    for l in SPEC_EXTRA.strip('\n').split('\n'): A('    ' + l)
     A('}')
     A('} // pnet')
     path = os.path.join(VERIF, 'shim', 'pnet.rs')
     open(path, 'w').write('\n'.join(out) + '\n')
     print('wrote', path, len(out), 'lines')
+    # ---- lemma file: field algebra of the byte-level axioms, PROVED by Verus in unit u_pnet and used as
+    # (external_body) broadcast facts in every other unit
+    byp = {p['prefix']: p for p in PACKETS}
+    def preserved(pre, setter):
+        return ',\n        '.join('%s_%s(%s) == %s_%s(s)' % (pre, f, setter, pre, f) for f, _ in byp[pre]['fields']) + ','
+    def reveals(pre):
+        r = ['reveal(%s_%s);' % (pre, f) for f, _ in byp[pre]['fields']] + ['reveal(%s_set_%s);' % (pre, f) for f, _ in byp[pre]['fields']]
+        if payload_spec(byp[pre]): r.append('reveal(%s_payload);' % pre)
+        return ' '.join(r)
+    extra = LEMMA_EXTRA
+    extra = extra.replace('IP4_FIELDS_PRESERVED', preserved('ip4', 'ip4_set_payload(s, v)'))
+    extra = extra.replace('IP6_FIELDS_PRESERVED', preserved('ip6', 'ip6_set_payload(s, v)'))
+    for pre in ('ip4', 'ip6', 'tcp'):
+        extra = extra.replace(pre.upper() + '_REVEALS', reveals(pre))
+    import re as _re
+    extra = _re.sub(r'(?m)^pub proof fn', '/*PROVED_IN:u_pnet*/ pub proof fn', extra)
+    names = LEMMA_NAMES + _re.findall(r'pub broadcast proof fn (\w+)', extra)
+    L = ['// GENERATED by tools/gen_pnet_shim.py -- do not edit.  Field algebra of the pnet byte-level axioms.',
+         '// Every lemma here is PROVED by Verus in unit u_pnet; other units include the statements only.',
+         'pub mod pnet_lemmas {',
+         '    use vstd::prelude::*; use crate::shim::*; use crate::pnet::util::*; use crate::pnet::pspec::*; use crate::pnet::cksum::*;',
+         '    broadcast use crate::shim::group_ip_axioms;']
+    for l in extra.strip('\n').split('\n'): L.append('    ' + l)
+    for l in LEMMA_LINES: L.append('    ' + l)
+    L.append('    pub broadcast group group_pnet_fields {')
+    L.append('        ' + ', '.join(names))
+    L.append('    }')
+    L.append('}')
+    path = os.path.join(VERIF, 'shim', 'pnet_lemmas.rs')
+    open(path, 'w').write('\n'.join(L) + '\n')
+    print('wrote', path, len(L), 'lines', len(names), 'broadcast lemmas')
 
 EXTRA = {
  'ipv4': r'''
-pub open spec fn ip4_options_length(s: Seq<u8>) -> int { if (s[0] & 0x0f) as int * 4 >= 20 { (s[0] & 0x0f) as int * 4 - 20 } else { 0 } }
-pub open spec fn ip4_payload_length(s: Seq<u8>) -> int { if be16(s, 2) as int >= (s[0] & 0x0f) as int * 4 { be16(s, 2) as int - (s[0] & 0x0f) as int * 4 } else { 0 } }
+pub open spec fn ip4_options_length(s: Seq<u8>) -> int { if ip4_header_length(s) as int * 4 >= 20 { ip4_header_length(s) as int * 4 - 20 } else { 0 } }
+pub open spec fn ip4_payload_length(s: Seq<u8>) -> int { if ip4_total_length(s) as int >= ip4_header_length(s) as int * 4 { ip4_total_length(s) as int - ip4_header_length(s) as int * 4 } else { 0 } }
 pub open spec fn ip4_hdr_for_ck(s: Seq<u8>) -> Seq<u8> {
-    let hl = (s[0] & 0x0f) as int * 4;
+    let hl = ip4_header_length(s) as int * 4;
     let n = if hl < 20 { 20 } else if hl > s.len() { s.len() as int } else { hl };
     s.subrange(0, n)
 }
@@ -357,7 +681,7 @@ pub mod Ipv4Flags { pub const DontFragment: u8 = 2; pub const MoreFragments: u8 
     ensures r == inet_ck(Seq::<u8>::empty(), ip4_hdr_for_ck(packet@), 5) { unimplemented!() }
 '''.strip('\n').split('\n'),
  'tcp': r'''
-pub open spec fn tcp_options_length(s: Seq<u8>) -> int { if ((s[12] & 0xf0) >> 4) > 5 { ((s[12] & 0xf0) >> 4) as int * 4 - 20 } else { 0 } }
+pub open spec fn tcp_options_length(s: Seq<u8>) -> int { if tcp_data_offset(s) > 5 { tcp_data_offset(s) as int * 4 - 20 } else { 0 } }
 #[allow(non_snake_case)] #[allow(non_upper_case_globals)]
 pub mod TcpFlags {
     pub const NS: u16 = 256; pub const CWR: u16 = 128; pub const ECE: u16 = 64; pub const URG: u16 = 32;
@@ -454,6 +778,15 @@ def gen_world():
     A('impl World {')
     A('    pub open spec fn table(&self) -> Map<u32, crate::proto::tcb::TCPControlBlock> { self.contable@ }')
     A('    pub open spec fn ev(&self) -> Seq<Ev> { self.events@ }')
+    A('    /// rule R5: the body of proto::get_tcb, `f(CONTABLE.lock().unwrap().get_mut(&cookie))`, with the table as state')
+    A('    #[verifier::external_body]')
+    A('    pub fn table_get_mut(&mut self, c: u32) -> (r: Option<&mut crate::proto::tcb::TCPControlBlock>)')
+    A('        ensures r.is_some() == old(self).table().dom().contains(c),')
+    A('            r.is_some() ==> *r.unwrap() == old(self).table()[c],')
+    A('            r.is_some() ==> final(self).table() == old(self).table().insert(c, *final(r.unwrap())),')
+    A('            r.is_none() ==> final(self).contable == old(self).contable,')
+    A('            final(self).ev() == old(self).ev(),')
+    A('    { self.contable.get_mut(&c) }')
     A('}')
     A('pub mod logger {')
     A('    use vstd::prelude::*;')
